@@ -426,10 +426,15 @@ Print Assumptions C02_single_call_variant.
                             range(n)); it returns the trace of stores: TAssign x v (a value bound to x), TLoopVar i v (a value
                             of a for target, which lives in the `int i` of the for header), TReturn v (Lang/StmtRef.v)
    script_items pre main  = the script  <statements at column 0, with their nested blocks> ; while True: <main>
-   script_guard C pre main = with L the var_types table at the END of the parse: every store x = e (x op= e, x = [comprehension])
-                            is inside the expression guard both under the var_types the transpiler holds at that line and under L,
-                            both give the label L holds for x, x op= e has x declared, and a name hoisted out of a loop has no
-                            other C type in the shared promotion table (promo_ok)
+   script_guard C pre main = with L the table of DECLARED labels (for every name the label of the store - or hoist - that declares
+                            it; Lang/StmtRef.v decl_tab): every store x = e (x op= e, x = [comprehension], each target of a tuple
+                            assignment) has e inside the expression guard under the var_types G the transpiler holds at that line;
+                            its value is covered - every name e reads has in G exactly its declared label (reads_ok: not narrowed,
+                            not read before the line that types it), or typing e under L gives the same label; the label
+                            inferred for e is L(x) when the store declares x and AT MOST L(x) (bool < int < float) when x is
+                            declared already (a narrower value into a wider variable); x op= e has x declared; a name hoisted out
+                            of an if or a loop ends its block with its declared label (hoist_ok, promo_ok) and has no other C type
+                            in the shared promotion table; every declared label belongs to a name var_types finally knows
    ev_decl D e            = the store e is held by the C type D declares for its name *)
 
 (* scripts with if / elif / else, while, for at any depth, then any number of passes of the main loop: on EVERY path, every value
@@ -455,8 +460,9 @@ Example C02_decl_covers_script_nonvacuous :
 Proof. exact demo_script_nonvacuous. Qed.
 Print Assumptions C02_decl_covers_script_nonvacuous.
 
-(* the boundary: the guard excludes the refuted shapes - first assignment of another label, x op= e changing the label,
-   branches that disagree, the flow-insensitive label table, a name read before the line that types it *)
+(* the boundary: the guard excludes the refuted shapes - a later store of a wider label, x op= e widening the label,
+   branches that disagree, a name read while its label is below its declared one (flow-insensitive table), a name read
+   before the line that types it *)
 Example C02_script_guard_excludes_refuted_witnesses :
   forallb (fun p => negb (script_guard None p BNil))
           [first_assign_script; aug_script; branch_script; flow_script; early_read_script] = true.
@@ -476,8 +482,9 @@ Proof. exact read_before_typed. Qed.
 Print Assumptions C02_read_before_typed_refuted.
 
 (* the two halves of the proof, for every instance of the user-function step (S, call) that answers like a fixed function table:
-   (M) the declaration bookkeeping keeps a block state well formed with respect to the final labels L - var_types is within L,
-       labelled = declared, every labelled name is declared with the C type of its label, nothing is declared twice;
+   (M) the declaration bookkeeping keeps a block state well formed with respect to the declared labels L - every label in
+       var_types is at most the declared one, labelled = declared, every labelled name is declared with the C type of its
+       DECLARED label, nothing is declared twice;
    (S) on every path every stored value is held by the label L gives the name *)
 Theorem C02_hoisting_keeps_declarations_coherent_partial :
   forall (S : Type) call C F A (Inv : S -> Prop),
@@ -503,8 +510,9 @@ Proof. exact stored_values_within_final_labels. Qed.
 Print Assumptions C02_stored_values_within_final_labels_partial.
 
 (* ---------------------------------------------------------------- function bodies, every shape
-   fn_guard F A C cur params sg body = the same guard for the body parsed for call signature sg, plus: the names visible when the
-                            body starts keep their label to the end (in particular no parameter is re-labelled)
+   fn_guard F A C cur params sg body = the same guard for the body parsed for call signature sg (declared labels: the labels
+                            visible when the body starts, then the first label recorded for every new name), plus: every
+                            parameter ends the body with the label of the signature (it is declared from that final label)
    fn_ev d outer e        = the store e is held by what the emitted variant d declares: a local (fd_locals), a parameter / global
                             (typed from the label it has when the body starts), the declared return type for a returned value *)
 Theorem C02_function_body_covers_partial :
@@ -614,11 +622,21 @@ Proof. exact helper_calls_helper. Qed.
 Print Assumptions C02_helper_calls_helper.
 
 (* ---------------------------------------------------------------- narrower into wider
-   The guards above demand that every store infers the label the name finally has.  The declaration bookkeeping also tolerates
-   a store of a NARROWER label into a variable declared from a wider one (a = 2.5 ; a = 1): the C++ conversion is exact.
-   What is not sound is the label table afterwards (C02_script_guard_excludes_refuted_witnesses: flow_script); programs with
-   such stores are covered by the value oracles (c)/(d), whose generators never read a name while its label is below its
-   declared one. *)
+   The guards above admit a store of a NARROWER label into a variable declared from a wider one (a = 2.5 ; a = 1) - the case the
+   declaration bookkeeping really handles: the declared C type holds the value (the covering theorems), and the C++ conversion
+   of such a store is exact (below).  What is not sound is the label table afterwards: the name must not be read while its label
+   is below its declared one (C02_script_guard_excludes_refuted_witnesses: flow_script). *)
+(* a = 2.5 ; a = 1 ; a = 3.5 ; b = 3 ; if ..: a = b ; a = 0.5 ; x = a * 2   is inside the guard (a is declared float and receives
+   ints at column 0 and inside a branch);  a = 2.5 ; a = 1 ; x = a  (a read while labelled int) is not *)
+Example C02_narrower_into_wider_nonvacuous :
+  script_guard None narrow_pre BNil = true /\ script_guard None narrow_read_pre BNil = false /\
+  (exists ps, run_items None (script_items narrow_pre BNil) = Some ps /\
+              p_globals ps = [(w_a, CFloat); (w_b, CInt); (w_x, CFloat)]) /\
+  (exists rho tr, exec_prog [0; 0]%nat narrow_pre BNil = Ok ([], rho, tr, false) /\
+                  In (TAssign w_a (VInt 1)) tr /\ In (TAssign w_a (VInt 3)) tr /\ In (TAssign w_x (VFloat 1)) tr).
+Proof. exact narrowing_nonvacuous. Qed.
+Print Assumptions C02_narrower_into_wider_nonvacuous.
+
 Theorem C02_narrower_store_is_exact :
   forall u t v,
     scalar t = true -> sub_ty u t -> repr u v ->
